@@ -185,7 +185,36 @@ def chk_functional(c):
     hs.truncate = False
 
 
-CHECKS = {'matrix': chk_matrix, 'functional': chk_functional}
+def chk_adaptive(c):
+    """one persistent HSpace object: assemble (which warms every cached index table), refine, assemble again ... -- after every step the
+    matrix must equal the reference computed on a freshly built space with the same history"""
+    from pyiga import hierarchical
+    spec = c['spec']
+    hs = hgen.build(spec, upto=0)
+    dim = hs.dim
+    geo = _geo(c['geo'], dim)
+    H = len(spec['history'])
+    for k in range(H + 1):
+        vf, args, sym, poly = _form(c['form'], dim)
+        for trunc in (False, True):
+            hs.truncate = trunc
+            A = hierarchical.HDiscretization(hs, _form(c['form'], dim)[0], dict(args, geo=geo)).assemble_matrix()
+            fresh = hgen.build(spec, upto=k)
+            fresh.truncate = False
+            ref = _reference(fresh, vf, args, geo)
+            if trunc:
+                T = fresh.thb_to_hb().toarray()
+                ref = T.T @ ref @ T
+            _close(A, ref, 'persistent space after %d refine() calls (truncate=%s)' % (k, trunc))
+        hs.truncate = False
+        hs.dirichlet_dofs()
+        hs.indices_to_smooth('cell_supp')
+        if k < H:
+            marked = {int(lv): set(tuple(x) for x in cells) for lv, cells in spec['history'][k].items()}
+            hs.refine(marked)
+
+
+CHECKS = {'matrix': chk_matrix, 'functional': chk_functional, 'adaptive': chk_adaptive}
 
 
 def warmup(tier):
@@ -234,6 +263,13 @@ def generate(tier, rng):
         yield 'matrix', {'spec': spec, 'form': forms[j % 4], 'geo': geos2[j % 4], 'via_assemble': bool(j % 4 == 1)}
         if j % 2:
             yield 'functional', {'spec': spec, 'functional': ['l2', 'grad'][j % 4 // 2], 'geo': geos2[(j + 1) % 4]}
+    # persistent objects: histories that return to coarser levels after finer ones (no new level is added by such a step)
+    for j in range(8 if quick else 40):
+        dim = 1 + j % 2
+        base = {'dim': dim, 'n': 3 if dim == 1 else 2, 'p': 1 + j % 2, 'disparity': ['inf', 1][j % 2]}
+        h = hgen.random_history(base, 3, rng, multi_level=False)
+        yield 'adaptive', {'spec': h, 'form': forms[j % 2], 'geo': 'unit'}
+    yield 'adaptive', {'spec': {'dim': 2, 'n': 3, 'p': 2, 'disparity': 'inf', 'history': [{'0': [[0, 0]]}, {'0': [[2, 2]]}, {'0': [[1, 1]], '1': [[0, 0]]}]}, 'form': 'stiffness', 'geo': 'affine'}
     for j in range(6 if quick else 40):
         d = [2, 1, 'inf'][j % 3]
         h = hgen.random_history({'dim': 1, 'n': 3, 'p': 1 + j % 3, 'disparity': d}, 4 + j % 2, rng, multi_level=False, finest_bias=0.8)
